@@ -22,7 +22,7 @@ PROPS = {
     "C12": dict(
         level="model_checking",
         level_text="bounded model checking by symbolic execution: base case + one inductive step per PeekingLexer operation from an arbitrary state satisfying the representation invariant; the solver discharges every assertion and every index/slice bound on all feasible paths of the real lexer/peek.go for streams up to the bound",
-        level_note="trusted: the SSA executor (validated per run by replaying sampled paths natively), z3, the invariant (if too weak the step cases fail, never pass wrongly); bounds: <=4 (quick) / <=7 (thorough) tokens",
+        level_note="trusted: the SSA executor (validated per run by replaying sampled paths natively), z3, the invariant (if too weak the step cases fail, never pass wrongly); bounds: <=4 (quick) / <=5 (thorough) tokens (7 before the elision sets were multiplied by four: reduced, stated)",
         runs=[dict(
             pkg="lexer", files=["lexer/zz_verif_peek.go"], harness="^VH_C12_",
             reach={
@@ -34,7 +34,7 @@ PROPS = {
         )],
         bounds=dict(
             quick="streams of <= 4 tokens + EOF, every token type an arbitrary 32-bit value != EOF, elision set one of {-2,-3}, {-64,9}, {-70,64}, {EOF,-2} (next to EOF, far from it, positive, naming EOF itself); cursors arbitrary 64-bit ints subject to the representation invariant; one operation from an arbitrary valid state (induction step) + base case; match predicate = one arbitrary bit per token",
-            thorough="as quick with streams of <= 7 tokens + EOF",
+            thorough="as quick with streams of <= 5 tokens + EOF (7 before the elision sets were multiplied by four; 6 did not finish within the time kept for it)",
         ),
         outside="streams longer than the bound; elision sets other than two types (the code treats the set only through map membership)",
         assumptions=[
@@ -49,7 +49,7 @@ PROPS = {
         level_note="trusted: the reference regex matcher that replaces package regexp on symbolic input (validated against the real regexp natively, and every counterexample is replayed against the real regexp before it is reported), the SSA executor (sampled paths replayed natively on every run), z3; bounds: 39 catalogue definitions + 100 (quick) / 400 (thorough) generated definitions, inputs <= 3 (quick) / <= 4 (thorough) bytes",
         runs=[dict(pkg="lexer", files=["lexer/zz_verif_stateful.go", "lexer/zz_verif_lexdefs.go", "lexer/zz_verif_lexgen.go"], harness="^VH_C03_",
                    reach={h: ["error", "tokens"] for h in ["VH_C03_Literal", "VH_C03_Overlap", "VH_C03_PushPop", "VH_C03_Return", "VH_C03_IncludeNested", "VH_C03_Backref", "VH_C03_Generated", "VH_C03_ElidedActions"]})],
-        bounds=dict(quick="100 generated definitions (deterministic generator: 3 states, 1-4 rules per state over 31 patterns, Push/Pop/Return/Include, elided rules with and without actions, back-references) and 43 catalogue definitions (literals, literal U+FFFD, escaped backslash + digit next to a back-reference, overlapping rules, classes, ., multi-byte class, anchors/word boundaries, alternation, empty-matching rule, case folding, Push/Pop, Return, Include first/middle/nested, Pop and Return in Root, optional group in a Push rule, back-references incl. missing group, metacharacter group and a group behind an unset optional group, rule names starting with non-ASCII lower-case / upper-case / caseless letters) x all inputs of <= 3 arbitrary bytes (incl. invalid UTF-8)",
+        bounds=dict(quick="100 generated definitions (deterministic generator: 3 states, 1-4 rules per state over 31 patterns, Push/Pop/Return/Include, elided rules with and without actions, back-references) and 45 catalogue definitions (literals, literal U+FFFD, escaped backslash + digit next to a back-reference, caseless rule names, (?i) literals with punctuation, overlapping rules, classes, ., multi-byte class, anchors/word boundaries, alternation, empty-matching rule, case folding, Push/Pop, Return, Include first/middle/nested, Pop and Return in Root, optional group in a Push rule, back-references incl. missing group, metacharacter group and a group behind an unset optional group, rule names starting with non-ASCII lower-case / upper-case / caseless letters) x all inputs of <= 3 arbitrary bytes (incl. invalid UTF-8)",
                     thorough="400 generated definitions + same catalogue x all inputs of <= 4 arbitrary bytes"),
         outside="definitions outside the catalogue and the generated family; inputs longer than the bound; correctness of package regexp itself; back-reference groups containing bytes >= 0x80",
         assumptions=["package regexp is replaced on symbolic input by the engine's reference matcher (refre.go), leftmost-first semantics over regexp/syntax trees",
@@ -62,7 +62,7 @@ PROPS = {
         level_note="trusted: as C03; the text/scanner-based lexer is outside the claim (stdlib scanner not encoded); generated lexers are covered by the C05 run",
         runs=[dict(pkg="lexer", files=["lexer/zz_verif_stateful.go", "lexer/zz_verif_lexdefs.go", "lexer/zz_verif_lexgen.go"], harness="^VH_C04_",
                    reach={"VH_C04_Advance": ["same-line", "new-line"], "VH_C04_Literal": ["ok", "error"], "VH_C04_Multibyte": ["ok", "error"]})],
-        bounds=dict(quick="Position.Advance: any 64-bit start position x any span of <= 4 arbitrary bytes; 16 catalogue definitions (incl. dot-all, negated class, multi-line, multi-byte literal rules, elided rules with actions, non-ASCII rule names) + 100 generated definitions x all inputs of <= 3 arbitrary bytes; 2 definitions x entry point in {LexString, Lex(reader)} chosen by the solver x prefix in {none, UTF-8 BOM, truncated BOM, UTF-16 BOM bytes} + <= 2 arbitrary bytes",
+        bounds=dict(quick="Position.Advance: any 64-bit start position x any span of <= 4 arbitrary bytes; 17 catalogue definitions (incl. dot-all, rule names starting with bytes >= 0xE0 and no lower-case rule, negated class, multi-line, multi-byte literal rules, elided rules with actions, non-ASCII rule names) + 100 generated definitions x all inputs of <= 3 arbitrary bytes; 2 definitions x entry point in {LexString, Lex(reader)} chosen by the solver x prefix in {none, UTF-8 BOM, truncated BOM, UTF-16 BOM bytes} + <= 2 arbitrary bytes",
                     thorough="Position.Advance: spans <= 5 bytes; inputs <= 4 bytes"),
         outside="text/scanner-based lexer (content produced by the stdlib scanner); inputs longer than the bound",
         assumptions=["package regexp replaced by the reference matcher on symbolic input"],
@@ -88,7 +88,7 @@ PROPS = {
         level_note="trusted: reference matchers (backtracking and possessive) standing in for package regexp on symbolic input, the SSA executor (sampled paths replayed natively through the emitted code), z3; bounds: 35 catalogue + 24 (quick) / 120 (thorough) generated definitions x inputs <= 3 (quick) / <= 4 (thorough) bytes",
         runs=[dict(pkg="lexer/internal/zzverifgen", pkg_name="zzverifgen", files=["gen/zz_verif_gen.go"], harness="^VH_C05_", generate="c05",
                    reach={"VH_C05_Literal": ["tokens", "error"], "VH_C05_Possessive": ["tolerated", "tokens"], "VH_C05_PushPop": ["tokens"], "VH_C05_G0": ["error"]})],
-        bounds=dict(quick="37 catalogue definitions of the generator's supported class (one per regexp operator the generator handles + multi-state Push/Pop/Return/Include + Pop/Return in Root + elided rules with actions + nullable repetition bodies + rule names starting with non-ASCII letters + literal U+FFFD) and 24 generated definitions (deterministic generator restricted to the supported class) x all inputs of <= 3 arbitrary bytes",
+        bounds=dict(quick="39 catalogue definitions of the generator's supported class (one per regexp operator the generator handles + multi-state Push/Pop/Return/Include + Pop/Return in Root + elided rules with actions + nullable repetition bodies + rule names starting with non-ASCII letters + literal U+FFFD + caseless rule names + (?i) literals with punctuation) and 24 generated definitions (deterministic generator restricted to the supported class) x all inputs of <= 3 arbitrary bytes",
                     thorough="same catalogue + 120 generated definitions x all inputs of <= 4 arbitrary bytes"),
         outside="definitions outside the catalogue and the generated family; inputs longer than the bound; back-reference / non-greedy / empty-matching rules (documented as unsupported by the generator)",
         assumptions=["package regexp replaced by reference matchers on symbolic input; the tolerated-difference predicate is 'possessive and backtracking reference matchers disagree on the span of some rule the runtime lexer tried on this input'"],
@@ -133,7 +133,7 @@ PROPS = {
         level="model_checking",
         level_text='bounded model checking by symbolic execution: on every feasible path of Build + ParseString over a symbolic token stream: no panic; nil error implies non-nil AST; an error implements participle.Error, comes with a non-nil partial AST, its position is the position of a token of the input, an UnexpectedTokenError carries the token at that position, and Error() is the documented [file:]line:col: message rendering',
         level_note='trusted: the reference semantics (own tag parser + evaluator written from the README, validated natively against the implementation on 960k random cases while designing), the reflect model of the executor (sampled paths are replayed natively with the real reflect on every run), z3; bounds: catalogue grammars x streams of <= 5 (quick) / <= 6 (thorough) tokens of arbitrary type and arbitrary one-byte text, lookahead an unconstrained 64-bit int, AllowTrailing symbolic',
-        runs=[dict(pkg=".", files=["root/zz_verif_ref.go", "root/zz_verif_ggcore.go", "root/zz_verif_parse.go", "root/zz_verif_grammars.go", "root/zz_verif_gengrammar.go", "root/zz_verif_entry.go"], harness='^VH_C06_', reach={'VH_C06_Seq': ['ok', 'error', 'unexpected-token'], 'VH_C06_EmptyTok': ['ok', 'error'], 'VH_C06_Bytes': ['ok', 'lex-error', 'parse-error'], 'VH_C06_LongError': ['lex-error'], 'VH_C06_DefaultLexer': ['ok', 'lex-error', 'parse-error'], 'VH_C06_Unquote': ['error']})],
+        runs=[dict(pkg=".", files=["root/zz_verif_ref.go", "root/zz_verif_ggcore.go", "root/zz_verif_parse.go", "root/zz_verif_grammars.go", "root/zz_verif_gengrammar.go", "root/zz_verif_entry.go"], harness='^VH_C06_', reach={'VH_C06_Seq': ['ok', 'error', 'unexpected-token'], 'VH_C06_EmptyTok': ['ok', 'error'], 'VH_C06_Bytes': ['ok', 'lex-error', 'parse-error'], 'VH_C06_LongError': ['lex-error'], 'VH_C06_DefaultLexer': ['ok', 'lex-error', 'parse-error'], 'VH_C06_Unquote': ['error'], 'VH_C06_BytesMB': ['ok', 'error']})],
         bounds={'quick': 'streams of <= 5 tokens + EOF, token types arbitrary 64-bit values != EOF, token texts arbitrary single bytes, lookahead any int (negative = unlimited), AllowTrailing on/off; symbols A,B,C,Ws,Cm (numbered next to EOF, and in one harness of C01/C10 far from it: -64, -70, and with positive values); plus 48 generated grammars (deterministic generator over every operator of the tag language, <= 3 productions, reflect.StructOf types through the real Build) x streams of <= 4 tokens (every twelfth grammar is one level deeper - repetitions inside captures, negated groups - and gets streams of <= 3)', 'thorough': 'as quick with streams of <= 6 tokens; 200 generated grammars x streams of <= 5 tokens (<= 4 for the deeper ones)'},
         outside='stack depth and running time on long or deeply nested inputs (a bounded symbolic run says nothing about them); lexing failures through the real lexers (covered by C03/C07 at the lexer level); grammars outside the catalogue; user Parseable/Capture code',
         assumptions=["text/scanner, strconv, unicode are executed from SSA; reflect is modelled over go/types; fmt by a small printf model",
@@ -179,7 +179,7 @@ PROPS = {
         level_note="trusted: the stub contract (text/scanner + textScannerTransform turn the rendered tag text into exactly the chosen tokens) — validated on every run because sampled paths and every counterexample are replayed natively with real struct tags lexed by the real scanner; reflect.StructOf is modelled over go/types; bounds below",
         runs=[dict(pkg=".", files=["root/zz_verif_ref.go", "root/zz_verif_ggcore.go", "root/zz_verif_parse.go", "root/zz_verif_grammars.go", "root/zz_verif_build.go"], harness="^VH_C19_", samples=12,
                    reach={"VH_C19_FieldTypes": ["built", "rejected"], "VH_C19_TagBytes": ["built", "rejected"], "VH_C19_Soup1": ["built", "rejected"], "VH_C19_Soup2": ["built", "rejected"]})],
-        bounds=dict(quick="one field: all sequences of 1..3 tokens over a 15-token alphabet (@ ! ~ ? * + ( ) [ ] | : known ident, unknown ident, string) x 6 field types (string, *Struct, []string, bool, map, interface); two fields: all sequences of 1..2 tokens per field over an 8-token alphabet x 3 field types; 50 kinds of field type (Parseable by value/pointer/interface, Capture, TextUnmarshaler, self-referential slice and pointer types, named slice/pointer types that reach a self-referential or mutually recursive type from outside its cycle, slices of pointers to scalars, arrays, channels, funcs, numeric, nested slices ...) x 12 capture forms under a termination bound; character level: 4 valid prefixes + a tail of <= 2 characters from an 18-character alphabet (quotes, back-quote, backslash, brackets, operators, NUL, newline, non-ASCII) through the real tag lexer and text/scanner",
+        bounds=dict(quick="one field: all sequences of 1..3 tokens over a 15-token alphabet (@ ! ~ ? * + ( ) [ ] | : known ident, unknown ident, string) x 6 field types (string, *Struct, []string, bool, map, interface); two fields: all sequences of 1..2 tokens per field over an 8-token alphabet x 3 field types; fields of a struct embedded three levels deep (must build / must be rejected); 50 kinds of field type (Parseable by value/pointer/interface, Capture, TextUnmarshaler, self-referential slice and pointer types, named slice/pointer types that reach a self-referential or mutually recursive type from outside its cycle, slices of pointers to scalars, arrays, channels, funcs, numeric, nested slices ...) x 12 capture forms under a termination bound; character level: 4 valid prefixes + a tail of <= 2 characters from an 18-character alphabet (quotes, back-quote, backslash, brackets, operators, NUL, newline, non-ASCII) through the real tag lexer and text/scanner",
                     thorough="one field: 1..4 tokens over an 18-token alphabet (adds { } =) x 8 field types; two fields: 1..3 tokens per field; tag tails of <= 3 characters"),
         outside="tokenisation of arbitrary tag characters beyond the character-level harness (the token-soup harnesses stub the tag lexer); reflect shapes beyond the list; tags longer than the bound",
         assumptions=["(*tagLexer).Next is replaced by a harness stub returning the chosen tokens (same tokens whenever a field is re-lexed)"],
@@ -204,7 +204,7 @@ PROPS = {
         runs=[dict(pkg=".", files=["root/zz_verif_ref.go", "root/zz_verif_ggcore.go", "root/zz_verif_parse.go", "root/zz_verif_grammars.go", "root/zz_verif_num.go"], harness="^VH_C17_",
                    reach={"VH_C17_Int8": ["converts", "rejects"], "VH_C17_Uint16": ["converts", "rejects"], "VH_C17_Alt": ["converts", "rejects", "other-alternative"],
                           "VH_C17_Join": ["converts", "rejects"], "VH_C17_Slice": ["converts", "rejects"], "VH_C17_SliceBatch": ["converts", "rejects"], "VH_C17_Float32": ["converts", "rejects"]})],
-        bounds=dict(quick="family A: 12 field shapes x all (value, ok) results of the uninterpreted conversion (64-bit symbolic); family B: 40 boundary texts (width limits of every size, hex/octal/binary prefixes, underscores, empty, exponent, Inf/NaN, float32 overflow) x {joined with '-' (also with 0-2 elided tokens between the joined tokens), 1-2 slice elements (also of a slice of pointers), float32, float64}",
+        bounds=dict(quick="family A: 12 field shapes x all (value, ok) results of the uninterpreted conversion (64-bit symbolic); family B: 40 boundary texts (width limits of every size, hex/octal/binary prefixes, underscores, empty, exponent, Inf/NaN, float32 overflow) x {joined with '-' (also with 0-2 elided tokens between the joined tokens, and with leading + / - sign tokens into unsigned and signed scalars), 1-2 slice elements (also of a slice of pointers), float32, float64}",
                     thorough="same (the finite kind set is complete)"),
         outside="numeric texts outside the catalogue for floats and slices (family B is an enumeration, not solver-decided); complex kinds",
         assumptions=["strconv.ParseInt/ParseUint on opaque text = uninterpreted function of (text, base, bitSize) with contract ok => value fits bitSize"],
@@ -229,8 +229,8 @@ PROPS = {
         level_text="relational bounded model checking by symbolic execution: Trace on/off (same AST and error), ParseFromLexer leaves the caller's lexer at the first unconsumed token (compared with the reference semantics' end position), Parse(reader) / ParseString / ParseBytes / ParseFromLexer over the parser's own lexer return the same AST and the same error for every symbolic input, Parser.Lex returns the tokens the parse consumes (also with an Upper mapper, which only implements Lex), and a definition's Lex and LexString yield identical streams",
         level_note="trusted: io.Copy / strings.Reader / bytes.Reader models (the writer receives exactly the reader's bytes, no error), fmt model for trace output, reference matcher for regexp on symbolic input; default text/scanner lexer content is outside (routing only)",
         runs=[dict(pkg=".", files=["root/zz_verif_ref.go", "root/zz_verif_ggcore.go", "root/zz_verif_parse.go", "root/zz_verif_grammars.go", "root/zz_verif_entry.go", "root/zz_verif_conc.go", "root/zz_verif_map.go"], harness="^VH_C15_",
-                   reach={"VH_C15_Routing": ["parsed", "failed"], "VH_C15_RoutingMapped": ["parsed", "failed"], "VH_C15_Trace_Alt": ["traced"], "VH_C15_Cursor_Seq": ["accept"], "VH_C15_LexEntryPoints": ["lexed"], "VH_C15_RoutingDefault": ["parsed", "failed"], "VH_C15_LexEntryPointsDefault": ["lexed", "lex-error"]})],
-        bounds=dict(quick="Trace/cursor: 6 grammar x configuration pairs + a root production implemented by user code (Parseable), streams <= 5 tokens; routing: stateful lexer (Ident/Num/elided ws) + grammar, inputs <= 3 arbitrary bytes, filename in {\"\", \"f\"}, with and without Upper(\"Ident\")",
+                   reach={"VH_C15_Routing": ["parsed", "failed"], "VH_C15_RoutingMapped": ["parsed", "failed"], "VH_C15_Trace_Alt": ["traced"], "VH_C15_Cursor_Seq": ["accept"], "VH_C15_LexEntryPoints": ["lexed"], "VH_C15_RoutingDefault": ["parsed", "failed"], "VH_C15_RoutingConfigured": ["parsed", "failed"], "VH_C15_LexEntryPointsDefault": ["lexed", "lex-error"]})],
+        bounds=dict(quick="Trace/cursor: 6 grammar x configuration pairs + a root production implemented by user code (Parseable), streams <= 5 tokens; text/scanner definition with and without a configure callback on <= 3 bytes of a 15-byte alphabet through ParseString / ParseBytes / Parse; routing: stateful lexer (Ident/Num/elided ws) + grammar, inputs <= 3 arbitrary bytes, filename in {\"\", \"f\"}, with and without Upper(\"Ident\")",
                     thorough="streams <= 6 tokens; inputs <= 4 bytes"),
         outside="the default text/scanner lexer's tokenisation; generated lexers' Lex/LexString/LexBytes (they share one code path: LexBytes and Lex call LexString)",
         assumptions=["io.Copy(w, r) delivers exactly the reader's bytes"],
@@ -260,7 +260,7 @@ import re as _re
 import subprocess as _sp
 
 C05_DEFS = ["Literal", "Overlap", "Classes", "Dot", "Multibyte", "Anchors", "Alternation", "Fold", "PushPop", "String",
-            "Return", "ReturnNested", "ReturnSelf", "IncludeFirst", "IncludeMiddle", "IncludeNested", "IncludeDiamond", "MultiLine", "Astral", "OddNames", "LiteralMB", "Latin1Class", "NonASCIINames", "ReplacementLit", "PopInRoot", "ReturnInRoot", "OptionalGroupPush",
+            "Return", "ReturnNested", "ReturnSelf", "IncludeFirst", "IncludeMiddle", "IncludeNested", "IncludeDiamond", "MultiLine", "Astral", "OddNames", "LiteralMB", "Latin1Class", "NonASCIINames", "ReplacementLit", "CaselessNames", "FoldPunct", "PopInRoot", "ReturnInRoot", "OptionalGroupPush",
             "ElidedActions", "NullableStar", "Possessive", "Repeat", "EmptyAlt", "NoWordBoundary", "EndAnchors", "FoldClass", "DotAll", "NonASCIILit", "NegClass"]
 
 C05_GENERATED = {"quick": 24, "thorough": 120}
